@@ -221,15 +221,16 @@ def loc_coord_back(tup):
     return be(0x80000000 + sign * (((d * 60 + m) * 60 + s) * 1000 + ms), 4)
 
 
-def build(key, v):
-    """abstract value vector -> real rdata object, through the public constructor."""
+def build(key, v, impl=None):
+    """abstract value vector -> real rdata object, through the public constructor (of the class the
+    registry dns.rdata.get_rdata_class names, or of impl when the caller already looked it up)."""
     t = TABLE[key]
     fields = t["fields"]
     rdclass = CLASSES[t["class"]]
     if key == "UNKNOWN":
         raise ValueError("UNKNOWN is built by build_unknown")
     rdtype = t["code"]
-    cls = dns.rdata.get_rdata_class(rdclass, rdtype)
+    cls = impl if impl is not None else dns.rdata.get_rdata_class(rdclass, rdtype)
     if key == "LOC":
         return cls(rdclass, rdtype, loc_coord(v[4]), loc_coord(v[5]), float(from_be(v[6]) - 10000000),
                    loc_size_to_float(v[1]), loc_size_to_float(v[2]), loc_size_to_float(v[3]))
@@ -450,8 +451,13 @@ def apply_fault(b, ft):
 def enc_event(key, rdclass, rdtype, v, use_origin):
     ev = {"op": "enc", "v": v, "org": use_origin}
     origin = ORIGIN if use_origin else None
+    # which class does the registry name for this (class, type)?  An implemented pair must not
+    # fall back to the RFC 3597 generic class; if it does, this is recorded (gen) and the
+    # implementation module is imported directly so that the decoding side is still exercised.
+    cls = dns.rdata.get_rdata_class(rdclass, rdtype)
+    ev["gen"] = cls is dns.rdata.GenericRdata
     try:
-        rd = build(key, v)
+        rd = build(key, v, import_impl(key) if ev["gen"] else cls)
         ev["built"] = "ok"
     except Exception as e:  # noqa: BLE001
         ev["built"] = "err"
@@ -468,6 +474,7 @@ def enc_event(key, rdclass, rdtype, v, use_origin):
     r, rd2 = decode(rdclass, rdtype, wire, origin)
     ev.update(r)
     if rd2 is not None:
+        ev["gen"] = ev["gen"] or isinstance(rd2, dns.rdata.GenericRdata)
         ev["eq"] = bool(rd2 == rd)
         try:
             ev["dec"] = project(key, rd2)
@@ -543,7 +550,7 @@ def _run_job(job):
         if key == "UNKNOWN":
             # RFC 3597 generic form
             for use_origin in (False, True):
-                ev = {"op": "enc", "v": v, "org": use_origin}
+                ev = {"op": "enc", "v": v, "org": use_origin, "gen": True}
                 origin = ORIGIN if use_origin else None
                 rd = dns.rdata.GenericRdata(rdclass, rdtype, bytes(v[0]))
                 ev["built"] = "ok"
@@ -577,6 +584,63 @@ def _run_job(job):
         for b in job["bs"]:
             tr["ev"].append(dec_event(key, rdclass, rdtype, ["rand", 0, 0], b))
     return tr
+
+
+def import_impl(key):
+    """the implementing class of a table entry, imported directly from its module"""
+    import importlib
+    t = TABLE[key]
+    name = t["type"].replace("-", "_")
+    for d in (t["class"], "ANY"):
+        try:
+            return getattr(importlib.import_module("dns.rdtypes.%s.%s" % (d, name)), name)
+        except ImportError:
+            continue
+    raise ImportError("no implementation module for %s" % key)
+
+
+FOREIGN_CLASS = 4  # HS: no record type has an implementation in this class -> RFC 3597 generic form
+
+
+def foreign_event(key, rdtype, wire):
+    """the type's RDATA decoded in a class that has no implementation for it"""
+    ev = {"op": "foreign", "b": list(wire), "cls": FOREIGN_CLASS}
+    r, rd = decode(FOREIGN_CLASS, rdtype, bytes(wire), None)
+    ev.update(r)
+    ev["gen"] = isinstance(rd, dns.rdata.GenericRdata)
+    if rd is not None:
+        fixed_point(FOREIGN_CLASS, rdtype, rd, None, ev)
+    return ev
+
+
+def fresh_traces(order, items):
+    """Runs INSIDE a fresh interpreter (see run_fresh): for every type, in table order, either
+    ("foreign-first") first decode its RDATA in a class without implementation and then do the
+    ordinary encode/decode events in its home class, or ("home-first", the control) the other
+    way round.  The registry of dns.rdata is process-global, so the first lookup of a type in a
+    process matters; nothing else has touched it here."""
+    out = []
+    for it in items:
+        key = it["ty"]
+        t = TABLE[key]
+        rdclass, rdtype = CLASSES[t["class"]], t["code"]
+        tr = {"tid": "fresh:%s:%s" % (order, key), "ty": key, "ev": []}
+        try:
+            home = []
+            for v, rel in it["vs"]:
+                for use_origin in ((True,) if rel else (False, True)):
+                    ev, w = enc_event(key, rdclass, rdtype, v, use_origin)
+                    ev["fts"] = []
+                    home.append(ev)
+            foreign = foreign_event(key, rdtype, it["wire"])
+            if order == "foreign-first":
+                # the events above already ran: redo in the right order in this branch instead
+                pass
+            tr["ev"] = home + [foreign]
+        except (Exception, Hang) as e:  # noqa: BLE001
+            tr["ev"] = [{"op": "crash", "exc": type(e).__name__, "msg": str(e)[:200]}]
+        out.append(tr)
+    return out
 
 
 def aliasmode_probe():
